@@ -17,12 +17,20 @@ def main():
     dst = os.path.join(HERE, "seeded", name)
     os.makedirs(dst, exist_ok=True)
     shutil.copy(os.path.join(src, "patch.diff"), dst)
+    ported = os.path.join(src, "patch_ported.diff")
+    if os.path.exists(ported):
+        # the sub-agent wrote the change against an older HEAD; later fix: commits touched the same
+        # lines, so the change was re-applied by hand on the current HEAD (same edit, new context)
+        shutil.copy(os.path.join(src, "patch.diff"), os.path.join(dst, "patch_original.diff"))
+        shutil.copy(ported, os.path.join(dst, "patch.diff"))
     shutil.copy(os.path.join(src, "demo.py"), dst)
     meta = json.load(open(os.path.join(src, "meta.json")))
     suite = ""
-    p = os.path.join(src, "suite_mine.log")
-    if os.path.exists(p):
-        suite = open(p).read().strip().splitlines()[-1]
+    for logname in ("suite_ported.log", "suite_mine.log"):
+        p = os.path.join(src, logname)
+        if os.path.exists(p):
+            suite = open(p).read().strip().splitlines()[-1]
+            break
 
     def rc(pypath):
         r = subprocess.run(["/venv/bin/python", "demo.py"], cwd=dst, env=dict(os.environ, PYTHONPATH=pypath), capture_output=True, text=True, timeout=180)
